@@ -797,9 +797,8 @@ private:
             auto value_guard = make_raii_guard( [&] {
                 // Zero-fill the elements of [idx, end_idx) that were not constructed, but only in segments
                 // that were really allocated: segments between allocated ones may still be missing.
-                segment_table_type current_table = this->get_table();
                 for (size_type i = idx; i < end_idx; ++i) {
-                    if (current_table[this->segment_index_of(i)].load(std::memory_order_relaxed) > this->segment_allocation_failure_tag) {
+                    if (table[this->segment_index_of(i)].load(std::memory_order_relaxed) > this->segment_allocation_failure_tag) {
                         zero_unconstructed_elements(&this->internal_subscript(i), /*count =*/1);
                     }
                 }
@@ -818,9 +817,8 @@ private:
             } ).on_exception( [&] {
                 // Zero-fill the elements of [idx, end_idx) that were not constructed, but only in segments
                 // that were really allocated: segments between allocated ones may still be missing.
-                segment_table_type current_table = this->get_table();
                 for (size_type i = idx; i < end_idx; ++i) {
-                    if (current_table[this->segment_index_of(i)].load(std::memory_order_relaxed) > this->segment_allocation_failure_tag) {
+                    if (table[this->segment_index_of(i)].load(std::memory_order_relaxed) > this->segment_allocation_failure_tag) {
                         zero_unconstructed_elements(&this->internal_subscript(i), /*count =*/1);
                     }
                 }
